@@ -35,7 +35,7 @@ def run(ctx):
     match_table(ctx, "C17-R1", f, walk(f), rows, "SessionId::try_from_session_stream")
     f = A.fn("wtransport_proto::ids::SessionId::try_from_varint")
     sg = [path_sig(p)[1] for p in nonpanic(walk(f))]
-    ctx.check("C17-R1", "SessionId::try_from_varint", sg == ["return SessionId::try_from_session_stream(StreamId::new(varint))"], "try_from_varint changed: %s" % sg, where(f))
+    ctx.check("C17-R1", "SessionId::try_from_varint", sg == ["return SessionId::try_from_session_stream(StreamId(varint))"], "try_from_varint changed: %s" % sg, where(f))
     for nm, want in (("into_u64", "return StreamId::into_u64(self.0)"), ("into_varint", "return StreamId::into_varint(self.0)"), ("session_stream", "return self.0")):
         f = A.fn("wtransport_proto::ids::SessionId::%s" % nm)
         sg = [path_sig(p)[1] for p in nonpanic(walk(f))]
@@ -47,7 +47,7 @@ def run(ctx):
         r"^wtransport_proto::ids::StreamId::into_u64$": (r"^return VarInt::into_inner\(self\.0\)$", []),
         r"^wtransport_proto::ids::StreamId::into_varint$": (r"^return self\.0$", []),
         r"^wtransport_proto::ids::QStreamId::into_u64$": (r"^return VarInt::into_inner\(self\.0\)$", []),
-        r"^wtransport_proto::ids::<impl std::convert::From<wtransport_proto::ids::StreamId> for wtransport_proto::varint::VarInt>::from$": (r"^return stream_id\.0$", []),
+        r"^wtransport_proto::ids::<impl std::convert::From<wtransport_proto::ids::StreamId> for wtransport_proto::varint::VarInt>::from$": (r"^return (stream_id\.0|StreamId::into_varint\(stream_id\))$", []),
         r"^wtransport_proto::varint::<impl std::convert::From<wtransport_proto::varint::VarInt> for u64>::from$": (r"^return value\.0$", []),
         r"^wtransport_proto::stream::types::WT::new$": (r"^return WT\(session_id\)$", []),
         r"^wtransport_proto::stream::(uniremote|unilocal)::<impl .*types::H3>>::session_id$": (r"^return StreamHeader::session_id\(Option::expect\(H3::stream_header\(self\.stage\),'[^']*'\)\)$", []),
